@@ -847,6 +847,9 @@ func (f *frame) calleeName(com *ssa.CallCommon) (abs string, callee *ssa.Functio
 	if n, ok := com.Value.Type().(*types.Named); ok {
 		return "dyn:" + types.TypeString(n, nil), nil
 	}
+	if ts := types.TypeString(com.Value.Type(), nil); ts == "func()" {
+		return "dyn:func", nil // written "fn dyn:func()" in contract files
+	}
 	return "dyn:" + types.TypeString(com.Value.Type(), nil), nil
 }
 
@@ -874,6 +877,11 @@ func (f *frame) execGo(x *ssa.Go, st *state, reach string) {
 	f.curOrd = f.ordinalOf(com, x.Pos())
 	f.siteAsserts("go", rel, "before", args, nil, st, reach, x.Pos())
 	if c == nil {
+		// a goroutine nobody specified may do anything, at any later time
+		if vc.w.notesOn() {
+			vc.w.note("%s: go %s without contract (modifies *)", vc.fnName, rel)
+		}
+		vc.havocAll(st, reach)
 		return
 	}
 	env := f.calleeEnv(c, callee, args, binds, st, st)
@@ -1190,7 +1198,7 @@ func (f *frame) inlineCall(callee *ssa.Function, args, binds []*sym, st *state, 
 		// callee never returns (panics on every path)
 		return f.freshOf(rt, "noret", st, reach)
 	}
-	st.h, st.epoch, st.havocked = exitSt.h, exitSt.epoch, exitSt.havocked
+	st.adopt(exitSt)
 	for _, u := range sub.vc.unsup {
 		_ = u
 	}
@@ -1251,7 +1259,7 @@ func (f *frame) runDefers(st *state, reach string) {
 		f.curOrd = f.ordinalOf(com, d.instr.Pos())
 		f.applyCall(abs, callee, args, binds, st, guard, d.instr.Pos(), rt)
 		m := vc.mergeStates([]string{d.armed, "true"}, []*state{st, pre})
-		st.h, st.epoch, st.havocked = m.h, m.epoch, m.havocked
+		st.adopt(m)
 	}
 }
 
